@@ -32,7 +32,13 @@ def main():
         rc, out = sh("git -C /repo status --porcelain -- src")
         assert out.strip() == "", "/repo dirty: " + out
         rc, out = sh("git -C /repo apply %s" % os.path.join(d, "patch.diff"))
-        assert rc == 0, out
+        if rc != 0:
+            # the lines the change touches were altered by a later fix: commit in /repo: the seed has to be re-expressed (not silently skipped)
+            rc3, out3 = sh("git -C /repo apply -3 %s" % os.path.join(d, "patch.diff"))
+            sh("git -C /repo checkout -- . ; git -C /repo reset -q")
+            summary[name] = dict(property=meta["property"], confirmed=meta.get("confirmed"), caught_by=[], exits={}, apply_failed=out.strip()[:200])
+            print(name, "PATCH DOES NOT APPLY", out.strip()[:160])
+            continue
         try:
             for c in checks:
                 t0 = time.time()
